@@ -122,7 +122,7 @@ def job_binop(tid, src, tname, opname, cfg, evm="cancun", scale=1):
 
 # ------------------------------------------------------------------------------------------------ dispatch
 def job_dispatch(tid, src, cfg, evm="cancun", scale=1):
-    """templates whose i-th function `fn{i}(x: uint256) -> uint256` returns x + i (or, without argument, i), some payable.
+    """templates whose i-th function `fn{i}(x: uint256) -> uint256` returns x ^ i (or, without argument, i), some payable.
     Contract over all calldata / value:   success  <=>  exists k. selector = id_k /\\ calldatasize >= 4 + 32*nargs_k /\\ (payable_k \\/ value = 0)
                                            and then the returned word identifies function k."""
     import json
@@ -154,7 +154,7 @@ def job_dispatch(tid, src, cfg, evm="cancun", scale=1):
 
     def expected(f):
         k = int("".join(ch for ch in f["name"] if ch.isdigit()) or 0)
-        return (x + BV(k)) if f["nargs"] else BV(k)
+        return (x ^ BV(k)) if f["nargs"] else BV(k)
 
     any_ok = z3.Or(*[entry_ok(f) for f in fns])
     discharge(obs, "paths-exhaustive", z3.Or(*[o.pc for o in outs]), timeout_ms=timeout, replay=replay)
@@ -272,7 +272,7 @@ def f(t: address) -> address:
 @external
 @nonreentrant
 def g() -> uint256:
-    self.x += 1
+    self.x = 5
     return 7
 """,
 }
@@ -390,3 +390,139 @@ def replay_tmpl(o):
 
 
 REPLAY = {"tmpl": replay_tmpl}
+
+
+# ------------------------------------------------------------------------------------------------ storage layout (C10)
+LAYOUT_SRC = {
+    "layout.mixed": """
+struct S:
+    p: uint128
+    q: bool
+    r: address
+
+a: uint256
+b: int128[3]
+s: S
+m: HashMap[address, uint256]
+d: DynArray[uint64, 4]
+y: Bytes[40]
+t: transient(uint256)
+z: uint8
+
+@external
+def set_a(v: uint256):
+    self.a = v
+
+@external
+def set_b(i: uint256, v: int128):
+    self.b[i] = v
+
+@external
+def set_s(v: S):
+    self.s = v
+
+@external
+def set_m(k: address, v: uint256):
+    self.m[k] = v
+
+@external
+def set_d(v: uint64):
+    self.d.append(v)
+
+@external
+def set_y(v: Bytes[40]):
+    self.y = v
+
+@external
+def set_t(v: uint256):
+    self.t = v
+
+@external
+def set_z(v: uint8):
+    self.z = v
+""",
+    "layout.lock": """
+a: uint256
+b: uint256
+
+@external
+@nonreentrant
+def set_a(v: uint256):
+    self.a = v
+
+@external
+def set_b(v: uint256):
+    self.b = v
+""",
+}
+
+
+def _is_hash_slot(e):
+    """the slot expression is keccak-derived (a mapping entry): keccak application, possibly plus a constant offset"""
+    e = z3.simplify(e)
+    if z3.is_app(e):
+        if e.decl().name().startswith("keccak_"):
+            return True
+        if e.decl().kind() == z3.Z3_OP_BADD:
+            return any(_is_hash_slot(c) for c in e.children())
+    return False
+
+
+def job_layout(tid, cfg, evm="cancun", scale=1):
+    """for every setter `set_<v>` of the template and every path on which it runs: each storage / transient write hits a slot
+    inside the range the `layout` output reports for <v> (mapping entries: a keccak-derived slot); the reported ranges
+    are pairwise disjoint and disjoint from the re-entrancy key."""
+    src = LAYOUT_SRC[tid]
+    obs = []
+    timeout = 20000 * scale
+    replay = {"kind": "tmpl", "tid": tid, "src": src, "cfg": cfg, "evm": evm}
+    full = T.compile_full(src, cfg, evm)
+    layout = full["layout"]
+    mids = {k: int(v, 16) for k, v in full["method_identifiers"].items()}
+    ranges = {}
+    for space, key in (("storage", "storage_layout"), ("transient", "transient_storage_layout")):
+        for name, d in (layout.get(key) or {}).items():
+            ranges[(space, name)] = (d["slot"], d["slot"] + d["n_slots"], d.get("type", ""))
+    # disjointness of the reported ranges (per address space)
+    for space in ("storage", "transient"):
+        rs = sorted((v[0], v[1], k[1]) for k, v in ranges.items() if k[0] == space)
+        ok = all(rs[i][1] <= rs[i + 1][0] for i in range(len(rs) - 1))
+        fact(obs, f"reported-ranges-disjoint[{space}]", ok, replay=replay, note=str(rs))
+    try:
+        env = Mx.Env()
+        code, _ = T.compile_runtime(src, cfg, evm)
+        outs = BC.run(code, env, evm_version=evm, max_paths=3000)
+    except Unsupported as e:
+        return _unsupported(obs, e)
+    sel = T.selector(env)
+    lock_key = "$.nonreentrant_key"
+    for sig, mid in mids.items():
+        var = sig.split("(")[0][len("set_"):]
+        space = "transient" if ("transient", var) in ranges else "storage"
+        lo, hi, typ = ranges[(space, var)]
+        is_map = typ.startswith("HashMap")
+        for o in outs:
+            if not success(o):
+                continue
+            here = z3.And(o.pc, z3.UGE(env.calldatasize, BV(4)), sel == BV(mid))
+            if not feasible(here, 2000):
+                continue
+            n = 0
+            for ev in o.world.trace:
+                if ev[0] not in ("sstore", "tstore"):
+                    continue
+                ev_space = "storage" if ev[0] == "sstore" else "transient"
+                slot = ev[1]
+                n += 1
+                # the lock key may be written by protected functions
+                lk = ranges.get((ev_space, lock_key))
+                in_lock = z3.And(z3.UGE(slot, BV(lk[0])), z3.ULT(slot, BV(lk[1]))) if lk else z3.BoolVal(False)
+                if ev_space != space:
+                    discharge(obs, f"write-confined[{var}]", z3.Implies(here, in_lock), timeout_ms=timeout, replay=replay)
+                elif is_map:
+                    fact(obs, f"write-confined[{var}]", _is_hash_slot(slot) or z3.is_true(z3.simplify(in_lock)), replay=replay, note="mapping entry slot must be keccak-derived: " + str(z3.simplify(slot))[:120])
+                else:
+                    inside = z3.And(z3.UGE(slot, BV(lo)), z3.ULT(slot, BV(hi)))
+                    discharge(obs, f"write-confined[{var}]", z3.Implies(here, z3.Or(inside, in_lock)), timeout_ms=timeout, replay=replay)
+            fact(obs, f"setter-writes-something[{var}]", n > 0, replay=replay)
+    return number(obs)
